@@ -230,7 +230,50 @@ def unq(s: str) -> str:
     return s
 
 
+def off_in_list_oracle(case: dict):
+    """comments at statement boundaries inside dicts that are LIST items, read with comments off: no comment entry anywhere,
+    only the header written, the data that of the same text without the comments"""
+    dictIO = native.dictio()
+    tmp = native.scratch_dir("c12l_")
+    try:
+        f, g = tmp / "src", tmp / "plain"
+        f.write_text(case["text"])
+        g.write_text(case["plain"])
+        try:
+            d_off = dictIO.DictReader.read(f, comments=False)
+            out_off = dictIO.NativeFormatter().to_string(d_off)
+            d_plain = dictIO.DictReader.read(g, comments=False)
+        except Exception as e:  # noqa: BLE001
+            return ("raises", f"read/write without comments raised {type(e).__name__}: {e}")
+    finally:
+        shutil.rmtree(tmp, ignore_errors=True)
+
+    def comment_keys(x, path=""):
+        if isinstance(x, dict):
+            for k, v in x.items():
+                if isinstance(k, str) and "COMMENT" in k:
+                    yield f"{path}/{k}"
+                yield from comment_keys(v, f"{path}/{k}")
+        elif isinstance(x, list):
+            for i, v in enumerate(x):
+                yield from comment_keys(v, f"{path}[{i}]")
+    ck = list(comment_keys(gen.plain(dict(d_off))))
+    if ck:
+        return ("off-keys", f"comments=False returned comment entries {ck} for {case['text']!r}")
+    try:
+        lo, bo, _ = scan_output(out_off)
+    except MalformedOutput as e:
+        return ("output-malformed", "comments off: " + str(e))
+    if lo or len(bo) != 1 or not out_off.startswith(DEFAULT_HEADER_START):
+        return ("off-written", f"comments=False: written comments {lo!r} {bo[1:]!r} for {case['text']!r}")
+    if not gen.typed_eq(gen.plain(dict(d_off)), gen.plain(dict(d_plain))):
+        return ("off-data", f"data differs from the text without comments: {gen.plain(dict(d_off))!r} vs {gen.plain(dict(d_plain))!r}")
+    return None
+
+
 def oracle(case: dict):
+    if case.get("kind") == "off-in-list":
+        return off_in_list_oracle(case)
     dictIO = native.dictio()
     text = case["text"]
     tmp = native.scratch_dir("c12_")
@@ -345,6 +388,34 @@ def run(ctx):
     for i in range(ctx.n(500, 12000)):
         s = gen_source(rng, hazardous=(i % 4 != 0))
         cases.append((mk_case(s), s.nontrivial or s.first_block_nested))
+    # comments inside dicts that are list items, comments off
+    for i in range(ctx.n(40, 600)):
+        items, plain_items = [], []
+        for j in range(rng.randrange(1, 4)):
+            body, pbody = [], []
+            for q in range(rng.randrange(1, 4)):
+                k = gen.plain_key(rng)
+                stmt = f"        {k}  {rng.randrange(0, 99)};"
+                m = rng.randrange(4)
+                cm = comment_text(rng, hazardous=False) or "c"
+                if m == 0:
+                    body += [f"        // {cm}", stmt]
+                elif m == 1:
+                    body += [stmt + f" // {cm}"]
+                elif m == 2:
+                    body += [f"        /* {cm} */", stmt]
+                else:
+                    body += [stmt]
+                pbody += [stmt]
+            items.append("    {\n" + "\n".join(body) + "\n    }")
+            plain_items.append("    {\n" + "\n".join(pbody) + "\n    }")
+        text = "top  1;\ncases\n(\n" + "\n".join(items) + "\n);\nlast  2;\n"
+        plain = "top  1;\ncases\n(\n" + "\n".join(plain_items) + "\n);\nlast  2;\n"
+        c = {"kind": "off-in-list", "text": text, "plain": plain, "block_comments": []}
+        r = oracle(c)
+        if r:
+            ctx.oracle_fail(c, r[0], r[1])
+        ctx.count(("ol", text), "//" in text or "/*" in text, "comments-off-in-list-dicts")
     # the recorded finding, re-established on every run: a block comment (on lines of its own, at a statement boundary)
     # whose text contains the line-comment marker
     for txt in ("/* see a // b\n */", "/* 1 // 2 */"):
